@@ -283,7 +283,15 @@ func runC11(cs c11Case) (string, string, string) {
 		return s, d, ""
 	}
 	// catch-up by the legitimate leader of term+1 holding history H: back off like the real sender
+	// Half of the cases start the probe at the end of the leader's log (a freshly
+	// elected leader), the other half at the beginning with a leader that holds
+	// the full log and no snapshot (its next index for this node was pushed down
+	// by a stale rejection): the conflict hints alone must lead it to success.
 	prev := uint64(c11Last)
+	leaderHasSnapshot := true
+	if (len(cs.Reqs)+int(cs.State.Commit))%2 == 1 {
+		prev, leaderHasSnapshot = 1, false
+	}
 	for round := 0; round < 12; round++ {
 		req := raft.AppendEntriesRequest{LeaderID: "n1", Term: term + 1, PrevLogIndex: prev, PrevLogTerm: c11H[prev], LeaderCommit: c11Last}
 		for i := prev + 1; i <= c11Last; i++ {
@@ -302,6 +310,13 @@ func runC11(cs c11Case) (string, string, string) {
 		}
 		vv, _ := c.View(0)
 		next := m.AEr.Index
+		if !leaderHasSnapshot {
+			if next == 0 || next > c11Last+1 {
+				break
+			}
+			prev = next - 1
+			continue
+		}
 		if next <= vv.LastIncludedIndex || next == 0 {
 			// the real leader would send its newest snapshot (S2) now
 			for _, rq := range []c11Req{{Snap: "S2", Cuts: 1, Chunk: 0, DTerm: 1}} {
